@@ -731,9 +731,28 @@ func runC07(c *Ctx) {
 							edge = norm(iff.Cond)
 						}
 					}
+					// the type byte was consulted on the way: one of the conditions that hold on this edge is computed from b[0]
+					// (or says the message is empty)
+					consulted := false
+					var conds []ssa.Value
+					for _, g := range guardsOf(pred.Instrs[len(pred.Instrs)-1]) {
+						conds = append(conds, g.Cond)
+					}
+					if iff, isIf := pred.Instrs[len(pred.Instrs)-1].(*ssa.If); isIf {
+						conds = append(conds, iff.Cond)
+					}
+					for _, cv2 := range conds {
+						for v := range dataSlice(fn, cv2) {
+							if ia, isIA := v.(*ssa.IndexAddr); isIA {
+								if k, isK := ia.Index.(*ssa.Const); isK && k.Int64() == 0 && strings.HasPrefix(norm(ia), "arg2[") {
+									consulted = true
+								}
+							}
+						}
+					}
 					for _, cj := range conj {
 						full := cj + " && " + edge
-						if !regexp.MustCompile(`!\(arg2\[0\][<>]=?1\d\d\)|!\(len\(arg2\)>0\)|\(len\(arg2\)==0\)`).MatchString(full) {
+						if !consulted && !regexp.MustCompile(`!\(arg2\[0\][<>]=?1\d\d\)|!\(len\(arg2\)>0\)|\(len\(arg2\)==0\)`).MatchString(full) {
 							st2 = core.Violated
 							det2 = fmt.Sprintf("hop limit %d is kept on a path that has not established that the message is not neighbour discovery (types 133-137): %s - a solicitation unicast to a global address goes out with that hop limit and is discarded by its receiver", cv.Int64(), strings.Trim(full, " &"))
 						}
